@@ -12,10 +12,14 @@ var notApplicable = map[string]string{
 }
 
 // notYet lists properties whose harness is not finished; they are not claimed.
+// wip lists harnesses that are still being built: their checks can be run by hand but are
+// not registered in MANIFEST.json yet.
+var wip = map[string]bool{"federation": true, "dispatch": true, "balance": true}
+
 var notYet = map[string]string{
-	"C01": "keepstore harness not finished yet", "C02": "keepstore harness not finished yet", 
-	"C04": "keepstore harness not finished yet", "C05": "keep-balance harness not finished yet", "C06": "keep-balance harness not finished yet",
-	"C07": "keepstore harness not finished yet", "C14": "dispatcher harness not finished yet",
+
+	"C05": "keep-balance harness not finished yet", "C06": "keep-balance harness not finished yet",
+	"C14": "dispatcher harness not finished yet",
 	"C15": "dispatcher harness not finished yet", "C16": "dispatcher harness not finished yet", "C17": "copier harness not finished yet",
 	"C18": "federation harness not finished yet", "C19": "federation harness not finished yet", "C20": "federation harness not finished yet",
 }
@@ -46,6 +50,9 @@ func writeManifest() {
 	serves := map[string][]string{}
 	sort.Slice(props, func(i, j int) bool { return props[i].ID < props[j].ID })
 	for _, p := range props {
+		if wip[p.Harness] {
+			continue
+		}
 		claimed[p.ID] = true
 		serves[p.Harness] = append(serves[p.Harness], p.ID)
 		checks = append(checks, chk{PropertyID: p.ID, Quick: "./vcheck " + p.ID + " quick", Thorough: "./vcheck " + p.ID + " thorough",
@@ -67,6 +74,9 @@ func writeManifest() {
 	sort.Slice(nas, func(i, j int) bool { return nas[i].PropertyID < nas[j].PropertyID })
 	var engines []map[string]any
 	for _, h := range harnesses {
+		if wip[h.Name] {
+			continue
+		}
 		engines = append(engines, map[string]any{"name": "vsim/" + h.Name, "path": "/verif/harness/" + h.Name + " (+ /verif/sim kernel, /verif/instr rewriter, /verif/driver)",
 			"serves_properties": serves[h.Name], "kind_free_text": "deterministic simulation with fault injection: real code of " + h.Pkg + " inside a testing/synctest bubble under a seeded scheduler, simulated clock/transport/disk, recorded choice vector, minimised replay"})
 	}
